@@ -45,6 +45,7 @@ type c12Cfg struct {
 	TTLS     int64    `json:"session_ttl_s"`
 	Addrs    []string `json:"addresses"`
 	StartOff int64    `json:"start_offset_s"`
+	Trusted  []string `json:"trusted_proxies"`
 }
 
 // c12Step is one executed step of a history, as it appears in witnesses.
@@ -84,6 +85,9 @@ type c12AddrState struct {
 	// failsAfterSuccess counts evaluated failures since the last success, -1
 	// when there was no success yet.
 	failsAfterSuccess int
+	// runClaims: 0 = no attempt of the run carried a forwarding header, 1 =
+	// some did, 2 = some claimed an address inside the trusted proxies.
+	runClaims int
 }
 
 func (a *c12AddrState) reset() {
@@ -94,6 +98,7 @@ func (a *c12AddrState) reset() {
 	a.hasFail = false
 	a.has429 = false
 	a.tainted = false
+	a.runClaims = 0
 	a.failsAfterSuccess = -1
 }
 
@@ -162,6 +167,7 @@ type c12Hist struct {
 	// per-history observations for the non-triviality rule
 	sawBlockCheck, sawSessReject bool
 	cur                          int // sticky address index
+	trusted                      netutil.SliceSubnetSet
 }
 
 func (h *c12Hist) now() int64 { return time.Now().Unix() - c12Epoch.Unix() }
@@ -189,14 +195,96 @@ func (h *c12Hist) violate(key, what string, extra map[string]any) {
 	h.dead = true
 }
 
-var c12Trusted = netutil.SliceSubnetSet{
-	netip.MustParsePrefix("127.0.0.0/8"),
-	netip.MustParsePrefix("::1/128"),
+// c12TrustedSets are the trusted-proxy configurations; the first one is the
+// product's default.
+var c12TrustedSets = [][]string{
+	{"127.0.0.0/8", "::1/128"},
+	{"127.0.0.0/8", "::1/128"},
+	{"127.0.0.0/8", "::1/128"},
+	{},
+	{"192.0.2.0/24", "10.0.0.0/8", "2001:db8::/64"},
+}
+
+// c12Hdr is one forwarding header of a login attempt.
+type c12Hdr struct {
+	name, val string
+	// class of the claimed address: "inside-trusted", "outside-trusted",
+	// "other-client" or "garbage".
+	class string
+}
+
+func c12RandIn(rng *rand.Rand, p netip.Prefix) netip.Addr {
+	b := p.Masked().Addr().AsSlice()
+	for i := p.Bits(); i < len(b)*8; i++ {
+		if rng.Intn(2) == 1 {
+			b[i/8] |= 1 << (7 - i%8)
+		}
+	}
+	a, _ := netip.AddrFromSlice(b)
+	return a
+}
+
+var c12Garbage = []string{"", "unknown", "999.1.1.1", "127.0.0.1:80", "127.0.0.300", "localhost", "::g", "-"}
+
+// claim returns one claimed address value and its class.
+func (h *c12Hist) claim(peer string) (val, class string) {
+	r := h.rng.Intn(100)
+	switch {
+	case r < 40 && len(h.trusted) > 0:
+		return c12RandIn(h.rng, h.trusted[h.rng.Intn(len(h.trusted))]).String(), "inside-trusted"
+	case r < 55 && len(h.addrs) > 1:
+		for {
+			o := h.addrs[h.rng.Intn(len(h.addrs))].ip
+			if o != peer {
+				if h.trusted.Contains(netip.MustParseAddr(o)) {
+					return o, "inside-trusted"
+				}
+				return o, "other-client"
+			}
+		}
+	case r < 75:
+		return c12Garbage[h.rng.Intn(len(c12Garbage))], "garbage"
+	}
+	for {
+		var v string
+		switch h.rng.Intn(3) {
+		case 0:
+			v = fmt.Sprintf("10.%d.%d.%d", h.rng.Intn(256), h.rng.Intn(256), 1+h.rng.Intn(254))
+		case 1:
+			v = fmt.Sprintf("203.0.113.%d", 100+h.rng.Intn(100))
+		default:
+			v = fmt.Sprintf("2001:db8:ffff::%x", 1+h.rng.Intn(0xfffe))
+		}
+		if !h.trusted.Contains(netip.MustParseAddr(v)) {
+			return v, "outside-trusted"
+		}
+	}
+}
+
+// claimHeaders returns the forwarding headers of one attempt: none for half
+// of the attempts, otherwise one to three different headers.
+func (h *c12Hist) claimHeaders(peer string) (hdrs []c12Hdr) {
+	if h.rng.Intn(2) == 0 {
+		return nil
+	}
+	n := 1
+	if h.rng.Intn(4) == 0 {
+		n = 2 + h.rng.Intn(2)
+	}
+	for _, i := range h.rng.Perm(len(c12Spoof))[:n] {
+		v, c := h.claim(peer)
+		if c12Spoof[i] == "X-Forwarded-For" && h.rng.Intn(2) == 0 {
+			v2, _ := h.claim(peer)
+			v = v + ", " + v2
+		}
+		hdrs = append(hdrs, c12Hdr{name: c12Spoof[i], val: v, class: c})
+	}
+	return hdrs
 }
 
 func (h *c12Hist) start() bool {
 	rl := newAuthRateLimiter(time.Duration(h.cfg.BlockS)*time.Second, uint(h.cfg.Max))
-	h.auth = InitAuth(h.file, h.web, uint32(h.cfg.TTLS), rl, c12Trusted)
+	h.auth = InitAuth(h.file, h.web, uint32(h.cfg.TTLS), rl, h.trusted)
 	if h.auth == nil {
 		h.rep.Inconcl("InitAuth returned nil on " + h.file)
 		h.dead = true
@@ -206,8 +294,8 @@ func (h *c12Hist) start() bool {
 	return true
 }
 
-// c12Spoof are the proxy headers a client may set freely; with no trusted
-// proxy in front they must not change which address is throttled.
+// c12Spoof are the proxy headers a client may set freely; unless the peer is
+// a trusted proxy they must not change which address is throttled.
 var c12Spoof = []string{"X-Real-IP", "X-Forwarded-For", "CF-Connecting-IP", "True-Client-IP"}
 
 func (h *c12Hist) remoteAddr(ip string) string {
@@ -219,13 +307,13 @@ func (h *c12Hist) remoteAddr(ip string) string {
 }
 
 // doLogin sends one POST /control/login through the real handler.
-func (h *c12Hist) doLogin(raddr, name, pw, spoofHdr, spoofVal string) (status int, cookie string, hasCookie bool, retry string, pan any) {
+func (h *c12Hist) doLogin(raddr, name, pw string, hdrs []c12Hdr) (status int, cookie string, hasCookie bool, retry string, pan any) {
 	body, _ := json.Marshal(map[string]string{"name": name, "password": pw})
 	r := httptest.NewRequest(http.MethodPost, "/control/login", bytes.NewReader(body))
 	r.RemoteAddr = raddr
 	r.Header.Set("Content-Type", "application/json")
-	if spoofHdr != "" {
-		r.Header.Set(spoofHdr, spoofVal)
+	for _, x := range hdrs {
+		r.Header.Set(x.name, x.val)
 	}
 	w := httptest.NewRecorder()
 	func() {
@@ -315,20 +403,60 @@ func (h *c12Hist) login(ai int, kind string) {
 	case "empty-password":
 		pw = ""
 	}
-	spoofHdr, spoofVal := "", ""
-	if h.rng.Intn(4) == 0 {
-		spoofHdr = c12Spoof[h.rng.Intn(len(c12Spoof))]
-		spoofVal = fmt.Sprintf("10.%d.%d.%d", h.rng.Intn(256), h.rng.Intn(256), 1+h.rng.Intn(254))
-	}
+	hdrs := h.claimHeaders(a.ip)
 	raddr := h.remoteAddr(a.ip)
 	detail := kind + " user=" + name
-	if spoofHdr != "" {
-		detail += " " + spoofHdr + "=" + spoofVal
+	canon := fmt.Sprintf("L%d:%s", ai, kind)
+	claims := 0
+	for _, x := range hdrs {
+		detail += fmt.Sprintf(" %s=%q(%s)", x.name, x.val, x.class)
+		canon += ":" + x.name + "=" + x.class
+		if claims < 1 {
+			claims = 1
+		}
+		if x.class == "inside-trusted" {
+			claims = 2
+		}
 	}
-	h.canon = append(h.canon, fmt.Sprintf("L%d:%s:%s", ai, kind, spoofHdr))
+	peerTrusted := h.trusted.Contains(netip.MustParseAddr(a.ip))
+	if peerTrusted {
+		detail += " [peer is a trusted proxy]"
+	}
+	h.canon = append(h.canon, canon)
 	st := h.step("login", raddr, detail)
 	t := h.now()
 	max, block := h.cfg.Max, h.cfg.BlockS
+	if len(hdrs) > 0 {
+		h.rep.Event("logins_with_forwarding_headers")
+		if len(hdrs) > 1 {
+			h.rep.Event("logins_with_several_forwarding_headers")
+		}
+	}
+
+	// A peer that is a trusted proxy may legitimately have its attempts
+	// attributed to the forwarded address (the product attributes them to the
+	// peer): which address is throttled is not asserted then, neither for the
+	// peer nor for the clients it names, until a reset of their state.
+	ambiguous := peerTrusted && len(hdrs) > 0
+	if ambiguous {
+		h.rep.Unspec("trusted_proxy_peer_with_forwarding_headers")
+		a.tainted = true
+		for _, x := range hdrs {
+			for _, f := range strings.Split(x.val, ",") {
+				ca, perr := netip.ParseAddr(strings.TrimSpace(f))
+				if perr != nil {
+					continue
+				}
+				for _, o := range h.addrs {
+					if netip.MustParseAddr(o.ip) == ca.Unmap() {
+						o.tainted = true
+					}
+				}
+			}
+		}
+	} else if claims == 2 {
+		h.rep.Event("logins_claiming_trusted_address_from_untrusted_peer")
+	}
 
 	// Attempts exactly on an edge are never asserted.
 	if a.hasFail && (t == a.lastFail+c12Window || t == a.lastFail+block) ||
@@ -342,7 +470,16 @@ func (h *c12Hist) login(ai int, kind string) {
 	mustBlock := !a.tainted && a.mode == c12Run && len(a.run) >= max && t < a.run[len(a.run)-1]+block
 	just, why := a.justify429(t, max, block)
 
-	status, cookie, hasCookie, retry, pan := h.doLogin(raddr, name, pw, spoofHdr, spoofVal)
+	status, cookie, hasCookie, retry, pan := h.doLogin(raddr, name, pw, hdrs)
+	// claimKey qualifies violation keys by what the attempts of the run and
+	// this attempt claimed about their address.
+	claimKey := ""
+	if rc := a.runClaims; rc > 0 || claims > 0 {
+		claimKey = ":with-forwarding-headers"
+		if rc == 2 || claims == 2 {
+			claimKey = ":with-headers-claiming-trusted-proxy-address"
+		}
+	}
 	if pan != nil {
 		st.Obs = fmt.Sprintf("panic: %v", pan)
 		h.violate("panic:login", fmt.Sprintf("handleLogin panicked: %v", pan), nil)
@@ -356,8 +493,10 @@ func (h *c12Hist) login(ai int, kind string) {
 		st.Obs += " Set-Cookie"
 	}
 	switch {
+	case ambiguous:
+		st.Exp = "attribution unspecified (trusted proxy peer with forwarding headers)"
 	case a.tainted:
-		st.Exp = "any (edge)"
+		st.Exp = "any (edge, or address named by a trusted proxy earlier)"
 	case mustBlock:
 		st.Exp = fmt.Sprintf("429: %d consecutive failures at %v, block lasts until t=%d", len(a.run), a.run, a.run[len(a.run)-1]+block)
 	case right:
@@ -394,6 +533,9 @@ func (h *c12Hist) login(ai int, kind string) {
 			if t > a.run[len(a.run)-1]+block-2 {
 				h.rep.Event("block_enforced_1s_before_its_end")
 			}
+			if claims == 2 {
+				h.rep.Event("block_enforced_on_attempt_claiming_trusted_address")
+			}
 		}
 		if !just {
 			if a.has429 && t-a.last429 <= block {
@@ -420,7 +562,7 @@ func (h *c12Hist) login(ai int, kind string) {
 			return
 		}
 		if mustBlock {
-			h.violate("throttle:evaluated-in-block:after-"+c12RunKinds(a.runKinds),
+			h.violate("throttle:evaluated-in-block:after-"+c12RunKinds(a.runKinds)+claimKey,
 				fmt.Sprintf("credentials were evaluated (403) inside the block period of %s", a.ip),
 				map[string]any{"address": a.ip, "run": a.run, "block_until": a.run[len(a.run)-1] + block})
 			return
@@ -443,9 +585,13 @@ func (h *c12Hist) login(ai int, kind string) {
 			a.mode = c12Run
 			a.run = []int64{t}
 			a.runKinds = map[string]bool{kind: true}
+			a.runClaims = claims
 		case a.mode == c12Run && len(a.run) < max && t-a.run[0] < c12Window:
 			a.run = append(a.run, t)
 			a.runKinds[kind] = true
+			if claims > a.runClaims {
+				a.runClaims = claims
+			}
 		default:
 			if a.mode != c12Unsure {
 				h.rep.Unspec("failure_after_window_or_block_with_recent_failures")
@@ -454,8 +600,11 @@ func (h *c12Hist) login(ai int, kind string) {
 			a.run = nil
 		}
 		a.lastFail, a.hasFail = t, true
-		if a.mode == c12Run && len(a.run) == max {
+		if !a.tainted && a.mode == c12Run && len(a.run) == max {
 			h.rep.Event("certain_runs_reaching_limit")
+			if a.runClaims == 2 {
+				h.rep.Event("certain_runs_with_claimed_trusted_address_reaching_limit")
+			}
 		}
 		return
 
@@ -466,7 +615,7 @@ func (h *c12Hist) login(ai int, kind string) {
 			return
 		}
 		if mustBlock {
-			h.violate("throttle:accepted-in-block:after-"+c12RunKinds(a.runKinds),
+			h.violate("throttle:accepted-in-block:after-"+c12RunKinds(a.runKinds)+claimKey,
 				fmt.Sprintf("the right password was evaluated and accepted inside the block period of %s", a.ip),
 				map[string]any{"address": a.ip, "run": a.run, "block_until": a.run[len(a.run)-1] + block})
 			return
@@ -484,12 +633,14 @@ func (h *c12Hist) login(ai int, kind string) {
 		if !a.tainted && just {
 			h.rep.Unspec("evaluated_where_a_sliding_window_would_block")
 		}
-		if a.hasFail {
-			h.rep.Event("success_clearing_a_count")
+		if !ambiguous {
+			if a.hasFail && !a.tainted {
+				h.rep.Event("success_clearing_a_count")
+			}
+			a.reset()
+			a.evals = append(a.evals, c12Eval{t: t, ok: true})
+			a.failsAfterSuccess = 0
 		}
-		a.reset()
-		a.evals = append(a.evals, c12Eval{t: t, ok: true})
-		a.failsAfterSuccess = 0
 		h.toks = append(h.toks, &c12Tok{val: cookie, user: name, created: t, lastOK: t})
 		st.Obs += fmt.Sprintf(" -> tok#%d", len(h.toks)-1)
 		h.rep.Event("sessions_created")
@@ -944,6 +1095,7 @@ func TestVerifC12(t *testing.T) {
 			BlockS: c12Pick[int64](hr, 30, 900),
 			TTLS:   c12Pick[int64](hr, 60, 3600, 30*86400),
 		}
+		cfg.Trusted = c12TrustedSets[hr.Intn(len(c12TrustedSets))]
 		perm := hr.Perm(len(ipPool))
 		for _, j := range perm[:1+hr.Intn(4)] {
 			cfg.Addrs = append(cfg.Addrs, ipPool[j])
@@ -964,6 +1116,13 @@ func TestVerifC12(t *testing.T) {
 		}
 		h := &c12Hist{rep: rep, rng: hr, cfg: cfg, users: users, web: web,
 			file: filepath.Join(dir, fmt.Sprintf("sessions-%d.db", i))}
+		for _, p := range cfg.Trusted {
+			h.trusted = append(h.trusted, netip.MustParsePrefix(p))
+		}
+		if h.trusted == nil {
+			h.trusted = netutil.SliceSubnetSet{}
+		}
+		rep.Class(fmt.Sprintf("trusted_proxies=%d", len(cfg.Trusted)))
 		for _, ip := range cfg.Addrs {
 			a := &c12AddrState{ip: ip}
 			a.reset()
@@ -998,17 +1157,20 @@ func TestVerifC12(t *testing.T) {
 
 	// The run is conclusive only if the interesting events were observed.
 	need := map[string]int{
-		"block_enforced_checks":                          verifkit.Pick(100, 2000),
-		"block_enforced_on_right_password":               verifkit.Pick(20, 400),
-		"certain_runs_reaching_limit":                    verifkit.Pick(100, 2000),
-		"success_clearing_a_count":                       verifkit.Pick(50, 1000),
-		"session_must_accept_checks":                     verifkit.Pick(200, 4000),
-		"session_must_accept_checks_after_restart":       verifkit.Pick(20, 400),
-		"session_reject_checks_after_expiry":             verifkit.Pick(50, 1000),
-		"session_reject_checks_after_logout":             verifkit.Pick(50, 1000),
-		"session_reject_checks_after_logout_and_restart": verifkit.Pick(5, 100),
-		"unknown_token_checks":                           verifkit.Pick(100, 2000),
-		"restarts":                                       verifkit.Pick(100, 2000),
+		"block_enforced_checks":                                    verifkit.Pick(100, 2000),
+		"block_enforced_on_right_password":                         verifkit.Pick(20, 400),
+		"certain_runs_reaching_limit":                              verifkit.Pick(100, 2000),
+		"success_clearing_a_count":                                 verifkit.Pick(50, 1000),
+		"session_must_accept_checks":                               verifkit.Pick(200, 4000),
+		"session_must_accept_checks_after_restart":                 verifkit.Pick(20, 400),
+		"session_reject_checks_after_expiry":                       verifkit.Pick(50, 1000),
+		"session_reject_checks_after_logout":                       verifkit.Pick(50, 1000),
+		"session_reject_checks_after_logout_and_restart":           verifkit.Pick(5, 100),
+		"unknown_token_checks":                                     verifkit.Pick(100, 2000),
+		"restarts":                                                 verifkit.Pick(100, 2000),
+		"logins_claiming_trusted_address_from_untrusted_peer":      verifkit.Pick(300, 6000),
+		"certain_runs_with_claimed_trusted_address_reaching_limit": verifkit.Pick(50, 1000),
+		"block_enforced_on_attempt_claiming_trusted_address":       verifkit.Pick(50, 1000),
 	}
 	if !rep.Violated() {
 		var low []string
